@@ -193,6 +193,13 @@ def gen_cases(rng, tier):
                         [(t0 + 10000, "R"), (t0 + 20000, "R"), (t0 + 30000, "R"), (t0 + 40000, "R")], [(t0 + 31000, "R"), (t0 + 62000, "R")]):
                 c = P06._case("tj%d" % k, "ni", 0, code, t0, evs)
                 cases.append([c[0], "c04", "TIMED"] + c[2:]); k += 1
+    for br in ("", "legacy", "none"):
+        for rel in (0, 1):
+            for t0 in (0, 137):
+                for ack in (1, 400, 1200, 31000):
+                    evs = ([(t0 + ack // 2 + 1, "R")] if rel == 0 and ack > 2 else []) + [(t0 + ack, "A")]
+                    c = P06._case("ta%d" % k, "inv", rel, 486, t0, evs, branch=br)
+                    cases.append([c[0], "c04", "TIMED"] + c[2:]); k += 1
     if tier == "thorough":
         # exhaustive pairs: one live server entry (request A), then message B, over the alphabet
         k = 0
@@ -231,6 +238,13 @@ def _timed_oracle(case, impl):
     kind, rel, t0 = case[3], case[4] == "1", int(case[6])
     inj = [(int(x.split(":")[0]), x.split(":")[1]) for x in case[7].split(",") if x]
     layer = [int(m.group(1)) for m in re.finditer(r"\bL@(\d+)", impl)]
+    if kind == "inv":
+        # 'the ACK for a non-2xx final response is absorbed by the existing server transaction and never shown to the layers';
+        # retransmitted INVITEs are absorbed too
+        shown = re.findall(r"\bL@(\d+):(\w+)", impl)
+        for t, m in shown:
+            return ["%s at %s ms was shown to the layers although the INVITE server transaction answered at %d ms (with a non-2xx) owns it" % (m, t, t0)]
+        return []
     if kind != "ni" or rel:
         return []
     late = [t for (t, k) in inj if k == "R" and t > t0 + 32000][:1]      # later ones are retransmissions of the new transaction
